@@ -33,7 +33,7 @@ def mc_all(cfg_suffix, fams=FAMS, cfg_override=None):
 
 def run_direct_property(prop, eps, sizes, nrandom, want_default, extra_must=None, mc_suffix=None,
                         cfg_override=None, lifts=1, evidence_extra=None, reject_is_violation=None,
-                        rows_fn=None, fams=FAMS, decl_filter=None, nshards=4):
+                        rows_fn=None, fams=FAMS, decl_filter=None, nshards=4, const_twins=False):
     """Generic driver: model-check the four family slices, replay a seeded sample of the TLC-enumerated
     declarations (every enumerated input and more) into freshly generated code, validate the recorded
     trace against the specification."""
@@ -58,6 +58,13 @@ def run_direct_property(prop, eps, sizes, nrandom, want_default, extra_must=None
         n_decl_space[fam] = len(adecls)
         sample = CV.sample_decls(adecls, sizes.get(fam), rng, must=extra_must or (lambda ad: ad["vmode"] != "std"))
         decls = CV.instantiate_slice(fam, sample, rng, "%s%s_" % (prop.lower(), fam[0]), lifts=lifts)
+        if const_twins and fam in ("int", "float"):
+            twins = []
+            for d in decls[::3]:
+                tw = CV.const_twin(d, d["id"] + "_c")
+                if tw:
+                    twins.append(tw)
+            decls = decls + twins
         feats = ["serde", "regex"] if fam == "string" else ["serde"]
         name = "%s_%s" % (prop.lower(), fam)
 
@@ -94,7 +101,7 @@ def run_direct_property(prop, eps, sizes, nrandom, want_default, extra_must=None
         "entry_points": sorted(eps) if eps else "all direct",
         "nan_policy_inferred": stats.get("nan_policy", {}),
         "evaluations": stats.get("trace_pairs", 0),
-        "distinct_nontrivial": stats.get("trace_pairs", 0),
+        "distinct_nontrivial": stats.get("nontrivial_pairs", 0),
         "rule": "TLC enumerates the bounded declaration x input space and checks operational => declarative; "
                 "a seeded sample of the declarations is rendered, compiled against /repo and driven with every "
                 "enumerated input plus boundary neighbourhoods, Unicode probes and random values; every "
@@ -118,7 +125,9 @@ def variant_reject(msgs):
 def check_C01():
     q = tier() == "quick"
     sizes = {"int": 70, "float": 50, "string": 70, "any": 40} if q else {"int": 400, "float": 300, "string": 400, "any": None}
-    return run_direct_property("C01", {"try_new", "new"}, sizes, 60 if q else 400, False)
+    return run_direct_property("C01", {"try_new", "new"}, sizes, 60 if q else 400, False, const_twins=True,
+                               evidence_extra={"twins": "every third integer/float declaration also as a `const_fn` twin (custom functions as `const fn`), driven at run time and "
+                                               "evaluated by rustc's compile-time interpreter in `const` items on the bound neighbourhood; the `any` family includes the generic Nt<T: Ord>(Vec<T>)"})
 
 
 def check_C03():
